@@ -1508,19 +1508,21 @@ def _tasks(tier, seed):
                 ex(t, mode, "FR")
         for i, t in enumerate(LONG):
             for mode in "AB":
-                ex(t, mode, "KSK")
-            ex(t, "AB"[i % 2], "sSK")
-        for t in SQUEEZED:
+                ex(t, mode, "kSK")
+            ex(t, "AB"[i % 2], "KsK")
+            ex(t, "BA"[i % 2], "ssK")
+        for i, t in enumerate(SQUEEZED):
+            ex(t, "AB"[i % 2], "FR")
+            ex(t, "BA"[i % 2], "F")
             for mode in "AB":
-                ex(t, mode, "FR")
-                ex(t, mode, "SKK")
+                ex(t, mode, "SK")
         for i in range(48):
             tasks.append((("random", seed * 1000 + i, 10, 5, 6), 10**6))
         bound = (
             f"{len(flat)} flat containers (0-3 leaves S/U; Frame parts; Overlay): all histories of length <=2 (full alphabet, then reduced), modes A and B; "
             f"{len(small)} of them (<=2 leaves): all histories of two reduced-alphabet operations followed by one key or click, one mode each; {len(PAIRS)} two-level nestings: length <=2 (full, reduced), both modes; "
             f"{len(nested)} two-level nestings: every single operation of the full alphabet in both modes, every third one also every reduced operation followed by a key or click; "
-            f"{len(d3)} three-level nestings: single operations (full) in both modes, every fourth also reduced operation + key/click; {len(EXTRA)} hand-picked nestings: length <=2; {len(LONG)} nestings with a ListBox longer than its view: key + assignment + key in both modes, focus_position assignment + assignment + key in one mode; {len(SQUEEZED)} Frames with trimmed header/footer: length <=2 (full, reduced) and assignment + two keys, both modes; 480 seeded random depth-3 trees x 5 histories of length 6 (non-exhaustive)"
+            f"{len(d3)} three-level nestings: single operations (full) in both modes, every fourth also reduced operation + key/click; {len(EXTRA)} hand-picked nestings: length <=2; {len(LONG)} nestings with a ListBox longer than its view: scrolling key + assignment + key in both modes, any key + focus_position assignment + key and two focus_position assignments + key in one mode each; {len(SQUEEZED)} Frames with trimmed header/footer: length <=2 (full, reduced) in one mode, single operations (full) in the other, assignment + key in both; 480 seeded random depth-3 trees x 5 histories of length 6 (non-exhaustive)"
         )
     return tasks, bound
 
